@@ -13,12 +13,13 @@ import (
 // the harnesses (only documents that load on their own are in scope of the identities).
 
 type gen struct {
-	root  map[string]any
-	atom  string // the string leaf
-	num   string // a string leaf that reads as a number / byte size
-	dur   string // a string leaf that reads as a duration
-	key   string // the key of keyed maps
-	noExt bool   // no x- extension attributes (the JSON rendering omits them below the top level by design)
+	root   map[string]any
+	atom   string // the string leaf
+	num    string // a string leaf that reads as a number / byte size
+	dur    string // a string leaf that reads as a duration
+	key    string // the key of keyed maps
+	numVar bool   // numbers are written as variables (${ONE}, ${ZERO}, ${NEG}) wherever the schema also admits a string
+	noExt  bool   // no x- extension attributes (the JSON rendering omits them below the top level by design)
 }
 
 // genSvc / genRes / genKey: the names of the service, the resource and the keyed-map key under test;
@@ -145,7 +146,17 @@ func (g *gen) examples(n map[string]any, depth int) []any {
 				lists = append(lists, g.strings(depth))
 			}
 		case "number", "integer":
-			lists = append(lists, []any{1, 0, -1})
+			admitsString := false
+			for _, t2 := range types {
+				if t2 == "string" {
+					admitsString = true
+				}
+			}
+			if g.numVar && admitsString {
+				lists = append(lists, []any{"${ONE}", "${ZERO}", "${NEG}"})
+			} else {
+				lists = append(lists, []any{1, 0, -1})
+			}
 		case "boolean":
 			lists = append(lists, []any{true, false})
 		case "null":
